@@ -694,7 +694,7 @@ pub fn run_lane(id: &str, lane: &Lane, seed: u64) -> LaneResult {
 					match lane.kind {
 						LaneKind::Miri => {
 							c = Command::new("cargo");
-							c.args(["+nightly", "miri", "run", "--offline", "-q", "--", "lane", lane.name, &shard.to_string(), &lane.nshards.to_string()]).current_dir(harness_dir()).env("CARGO_TARGET_DIR", root.join("target").join("miri")).env("CARGO_NET_OFFLINE", "true").env("MIRIFLAGS", "-Zmiri-disable-isolation");
+							c.args(["+nightly", "miri", "run", "--offline", "-q", "--", "lane", lane.name, &shard.to_string(), &lane.nshards.to_string()]).current_dir(harness_dir()).env("CARGO_TARGET_DIR", root.join("target").join("miri")).env("CARGO_NET_OFFLINE", "true").env("MIRIFLAGS", format!("-Zmiri-disable-isolation -Zmiri-seed={}", shard));
 						}
 						_ => {
 							c = Command::new("valgrind");
@@ -782,6 +782,7 @@ fn replay_dir(id: &str) -> PathBuf {
 /// RLIMIT_AS for this process. Not under Miri (no FFI) and not when PVH_NO_RLIMIT is set
 /// (ASan and valgrind need terabytes of address space for their shadow memory).
 pub fn limit_address_space(bytes: u64) -> bool {
+	let _ = bytes;
 	if std::env::var_os("PVH_NO_RLIMIT").is_some() {
 		return false;
 	}
